@@ -22,6 +22,9 @@ func TestMain(m *testing.M) {
 }
 
 func runCase(t *rapid.T, sockets bool) {
+	if vstat.OverBudget() {
+		return
+	}
 	vstat.Case()
 	insts := prog.GenMix(t, sockets)
 	defer func() {
